@@ -33,6 +33,8 @@ func main() { mon.Main("C02", "exploration", mon.Options{}, run) }
 
 var r *mon.Run
 
+var nTwice int64
+
 var nFull, nPartial, nMutAccepted, nMutRejected, nMutSkipped, nCemiDirect int64
 
 func svcName(s uint16) string { return fmt.Sprintf("%#04x", s) }
@@ -48,9 +50,23 @@ func checkValue(f *spec.Frame, kind int) {
 	}
 	c := map[string]interface{}{"service": svcName(f.Service), "expected_bytes": hex.EncodeToString(want), "value": libx.Dump(v)}
 	var got []byte
+	vBefore := libx.Dump(v)
 	if p := mon.Guard(func() { got = knxnet.AllocAndPack(v) }); p != "" {
 		r.Violate("encode.panic", attrs, c, "encoding %s panicked: %s", libx.Dump(v), p)
 		return
+	}
+	if after := libx.Dump(v); after != vBefore {
+		c["value_after_encoding"] = after
+		r.Violate("encode.mutates-value", attrs, c, "service %s: encoding changed the value that was encoded: %s -> %s", svcName(f.Service), trunc(vBefore), trunc(after))
+		return
+	}
+	// encoding twice gives the same bytes (no state carried from one call to the next)
+	if i := atomic.AddInt64(&nTwice, 1); i%16 == 0 {
+		var again []byte
+		if p := mon.Guard(func() { again = knxnet.AllocAndPack(v) }); p == "" && string(again) != string(got) {
+			r.Violate("encode.not-repeatable", attrs, c, "service %s: encoding the same value twice gives %x and then %x", svcName(f.Service), got, again)
+			return
+		}
 	}
 	if string(got) != string(want) {
 		c["library_bytes"] = hex.EncodeToString(got)
